@@ -348,6 +348,13 @@ func c18WithoutMember(file string) []byte {
 	return buildZip(members, false)
 }
 
+var c18ValidZones = []string{"America/Chicago", "America/Denver", "America/Los_Angeles", "America/Anchorage", "America/Phoenix", "America/Toronto", "America/Vancouver", "America/Mexico_City",
+	"America/Bogota", "America/Lima", "America/Santiago", "America/Sao_Paulo", "America/Argentina/Buenos_Aires", "America/Halifax", "America/St_Johns", "Europe/London", "Europe/Dublin", "Europe/Lisbon",
+	"Europe/Paris", "Europe/Berlin", "Europe/Madrid", "Europe/Rome", "Europe/Amsterdam", "Europe/Brussels", "Europe/Vienna", "Europe/Zurich", "Europe/Stockholm", "Europe/Oslo", "Europe/Copenhagen",
+	"Europe/Helsinki", "Europe/Warsaw", "Europe/Prague", "Europe/Budapest", "Europe/Athens", "Europe/Istanbul", "Europe/Moscow", "Europe/Kiev", "Africa/Cairo", "Africa/Johannesburg", "Africa/Lagos",
+	"Africa/Nairobi", "Asia/Dubai", "Asia/Karachi", "Asia/Kolkata", "Asia/Dhaka", "Asia/Bangkok", "Asia/Singapore", "Asia/Hong_Kong", "Asia/Shanghai", "Asia/Taipei", "Asia/Seoul", "Asia/Tokyo",
+	"Asia/Manila", "Asia/Jakarta", "Australia/Perth", "Australia/Adelaide", "Australia/Brisbane", "Australia/Sydney", "Australia/Melbourne", "Pacific/Auckland", "Pacific/Honolulu", "Pacific/Fiji"}
+
 var c18Salt int
 
 // c18Init builds the inputs of one execution. Dates and ids are salted with a per-process
@@ -377,6 +384,8 @@ func c18Init() {
 	for r := range cd.Rows {
 		cd.set(r, "date", day.AddDate(0, 0, r+1).Format("20060102"))
 	}
+	// the zone of the first agency is salted too (valid names): a cache of loaded zones is cold as well
+	m.t("agency.txt").set(0, "agency_timezone", c18ValidZones[c18Salt%len(c18ValidZones)])
 	c18Inputs.zip = renderFeed(m, presentation{})
 	mu := m.clone()
 	mu.t("agency.txt").set(0, "agency_timezone", fmt.Sprintf("Nowhere/Zone%d", c18Salt))
